@@ -433,6 +433,24 @@ def rule_ml(repo: Repo, rep: Report) -> int:
     ok = "num_messages = 2 ** k" in body and "k = self.code_dimension" in body and any(b == "codewords[i] = self.encoder(messages[i].unsqueeze(0)).squeeze(0)" for b in body) and "messages[i, k - j - 1] = float(i >> j & 1)" in body
     loops = [unparse(s.iter) for s in stmts_of(gc.body) if isinstance(s, ast.For)]
     ok = ok and loops.count("range(num_messages)") == 2
+    # the enumeration index runs up to 2^k - 1: created in an 8- or 16-bit integer dtype it wraps around (uint8: modulo 256), and
+    # the upper message bits are never set - not visible to the evaluation below (k <= 4, untyped integers)
+    NARROW = {"torch.uint8": 8, "torch.int8": 7, "torch.int16": 15, "torch.short": 15, "torch.bool": 1}
+    ldt = {}
+    for s_ in ast.walk(gc.node):
+        if isinstance(s_, ast.Assign) and len(s_.targets) == 1 and isinstance(s_.targets[0], ast.Name) and isinstance(s_.value, ast.Call):
+            d_ = next((unparse(k_.value) for k_ in s_.value.keywords if k_.arg == "dtype"), None)
+            if d_ in NARROW:
+                ldt[s_.targets[0].id] = d_
+    for c_ in ast.walk(gc.node):
+        if isinstance(c_, ast.Call) and (call_name(c_) or "") in ("torch.arange", "torch.tensor", "torch.as_tensor") and c_.args:
+            d_ = next((unparse(k_.value) for k_ in c_.keywords if k_.arg == "dtype"), None)
+            if d_ is not None and d_.endswith(".dtype") and d_[:-6] in ldt:
+                d_ = ldt[d_[:-6]]
+            big = any(isinstance(x_, ast.Name) and x_.id in ("num_messages",) for x_ in ast.walk(c_.args[-1] if (call_name(c_) or "") == "torch.arange" else c_.args[0])) or any(isinstance(x_, ast.BinOp) and isinstance(x_.op, ast.Pow) for x_ in ast.walk(c_.args[0]))
+            if d_ in NARROW and big:
+                rep.violation("ML", gc, f"message index enumerated in {d_}", f"`{unparse(c_)[:80]}` holds the message numbers 0 .. 2^k - 1 in a {NARROW[d_]}-bit dtype: for k > {NARROW[d_]} the numbers wrap around, the upper message bits are always 0 and the codebook contains only 2^{NARROW[d_]} distinct code words - the decoder is not maximum-likelihood for such codes", node=c_)
+                n += 1
     cst, cdet = (OK, "") if ok else codebook_evaluated(gc)
     if not ok and cst in (OK, VIOLATION):
         rep.add("ML", gc, "codebook evaluated with a model encoder (k = 1..4)", cst, cdet, node=gc.node)
